@@ -221,6 +221,86 @@ func nearMidpointRoot(t *big.Int, K int) (*big.Int, bool) {
 	return m, true
 }
 
+// nearMidpointCube builds a Cbrt argument whose exact root lies extremely
+// close to a rounding midpoint. There is no modular shortcut for cubes (cubing
+// is a bijection on the units mod 2^K and 5^K), but next to a short root s the
+// expansion (s+d)^3 = s^3 + 3s^2 d + 3s d^2 + d^3 has a linear term that is a
+// multiple of half an argument-ulp and a quadratic term that can be tuned: with
+// d = (k+1/2) root-ulps, k near sqrt((n+phi) ux / (3 s ur^2)) makes the cube of
+// the midpoint land within ~1e-17 argument-ulps of a representable argument.
+// Returns the argument coefficient/exponent and |root - midpoint| in root-ulps.
+func nearMidpointCube(r *gen.RNG) (*big.Int, int, float64, bool) {
+	s := int64(r.Pick(1, 1, 1, 2, 3, 4, 5, 6, 7, 8, 9))
+	// root coefficient: s followed by zeros, at full width (35 digits while it fits, else 34)
+	fits := func(v int64, d int) bool {
+		// v*10^d plus a one per cent margin is a valid coefficient
+		t := new(big.Int).Mul(big.NewInt(v*101), ref.Pow10(d-2))
+		return t.Cmp(ref.Cmax) <= 0
+	}
+	rd := 34 // number of fraction digits of the root
+	if !fits(s, 34) {
+		rd = 33
+	}
+	S := new(big.Int).Mul(big.NewInt(s), ref.Pow10(rd)) // s in root-ulps
+	// argument x = root^3 in [s^3, (s+1)^3): its ulp 10^-xd
+	s3 := s * s * s
+	xd := 34
+	for !fits(s3, xd) {
+		xd--
+	}
+	q := 3*rd - xd // (root-ulp)^3 = 10^-3rd ; x-ulp = 10^-xd ; x-ulps per (root-ulp)^3 = 10^(xd-3rd)
+	// choose n, solve 3 s k^2 * 10^-q ~ n + phi for k
+	nmax := r.Range(1, 9)
+	n := r.BigBelow(ref.Pow10(nmax))
+	n.Add(n, ref.One)
+	twoN := new(big.Int).Mul(n, big.NewInt(2))
+	if s%2 == 1 {
+		twoN.Add(twoN, ref.One) // phi = 1/2 when 3 s^2 / 2 has fraction one half
+	}
+	// quadratic term in argument-ulps: 3 s k^2 ur^2/ux = 3 s k^2 * 10^-(2rd-xd); k0 = sqrt(twoN * 10^(2rd-xd) / (6 s))
+	t := new(big.Int).Mul(twoN, ref.Pow10(2*rd-xd))
+	t.Quo(t, big.NewInt(6*s))
+	k0 := new(big.Int).Sqrt(t)
+	if k0.Sign() == 0 {
+		return nil, 0, 0, false
+	}
+	var bestX *big.Int
+	best := 1.0
+	eight10q := new(big.Int).Mul(big.NewInt(8), ref.Pow10(q))
+	for dk := int64(-2); dk <= 2; dk++ {
+		k := new(big.Int).Add(k0, big.NewInt(dk))
+		if k.Sign() < 0 {
+			continue
+		}
+		c := new(big.Int).Add(S, k) // root coefficient below the midpoint
+		if c.Cmp(ref.Cmax) >= 0 {
+			continue
+		}
+		C2 := new(big.Int).Add(new(big.Int).Mul(c, big.NewInt(2)), ref.One)
+		cube := new(big.Int).Exp(C2, big.NewInt(3), nil)
+		// nearest x: cube / (8*10^q)
+		x, rem := new(big.Int).QuoRem(cube, eight10q, new(big.Int))
+		if new(big.Int).Mul(rem, big.NewInt(2)).Cmp(eight10q) > 0 {
+			x.Add(x, ref.One)
+			rem.Sub(rem, eight10q)
+		}
+		if x.Sign() <= 0 || x.Cmp(ref.Cmax) > 0 {
+			continue
+		}
+		// root(x) - midpoint = -rem / (6 C2^2) root-ulps
+		num, _ := new(big.Float).SetInt(rem).Float64()
+		den, _ := new(big.Float).SetInt(new(big.Int).Mul(big.NewInt(6), new(big.Int).Mul(C2, C2))).Float64()
+		d := math.Abs(num / den)
+		if d < best && rem.Sign() != 0 {
+			best, bestX = d, x
+		}
+	}
+	if bestX == nil || best > 1e-9 {
+		return nil, 0, 0, false
+	}
+	return bestX, -xd, best, true
+}
+
 func (j *rootJudge) genAndJudge(r *gen.RNG, i int) {
 	neg := r.Bool()
 	switch i % 10 {
@@ -309,6 +389,22 @@ func (j *rootJudge) genAndJudge(r *gen.RNG, i int) {
 		}
 		c, _ := r.Coef()
 		j.judge(ref.Encode(false, c, r.Range(ref.MinExp, ref.MaxExp)), false, nil, 0)
+	case 8: // Cbrt arguments whose exact root lies within ~1e-10 .. 1e-19 ulp of a rounding midpoint
+		if xc, xe, dist, ok := nearMidpointCube(r); ok {
+			b := 0
+			if dist > 0 {
+				b = int(-math.Log10(dist))
+			}
+			if b > 20 {
+				b = 20
+			}
+			j.sh.Cell(fmt.Sprintf("Cbrt/constructed-near-midpoint/1e-%d", b))
+			j.sh.TrackMax("closest_midpoint_neg_log10/Cbrt", float64(b), nil)
+			j.judge(ref.Encode(neg, xc, xe+3*r.Pick(0, 0, 1, -1, r.Range(-2000, 2000))), true, nil, 0)
+			return
+		}
+		c, _ := r.Coef()
+		j.judge(ref.Encode(neg, c, r.Range(ref.MinExp, ref.MaxExp)), true, nil, 0)
 	case 7: // result-driven: the root's coefficient lands next to an internal threshold of the result path
 		cube := r.Bool()
 		k := 2
